@@ -115,3 +115,53 @@ package list
 //@   loop 1: invariant forall i int :: 0 <= i && i < old(len(l.Items[key])) ==> l.Items[key][i] == old(l.Items[key][i])
 //@   loop 1: invariant forall i int :: 0 <= i && i <= rangeindex ==> l.Items[key][old(len(l.Items[key])) + i] == values[i]
 //@   loop 1: invariant others(l, key)
+
+//@ func List.LPush
+//@   requires l != nil && l.Items != nil
+//@   ensures[C05] err == nil && size == old(len(l.Items[key])) + len(values) && has(l.Items, key) && len(l.Items[key]) == size && fresh(l.Items[key])
+//@   ensures[C05] forall i int :: 0 <= i && i < len(values) ==> l.Items[key][i] == values[len(values) - 1 - i]
+//@   ensures[C05] forall i int :: 0 <= i && i < old(len(l.Items[key])) ==> l.Items[key][len(values) + i] == old(l.Items[key][i])
+//@   ensures[C05] others(l, key)
+//@   modifies entries(l.Items)
+//@   safety[C05,C20] panics overflow
+//@   loops 2
+//@   loop 1: modifies elems(newList)
+//@   loop 1: invariant 1 <= i && i <= size + 1 && j == valueLen + i - 1 && l == old(l) && key == old(key) && values == old(values) &&
+//@        size == old(len(l.Items[key])) && valueLen == len(values) && newSize == size + valueLen && len(newList) == newSize && off(newList) == 0 && fresh(newList) && arr(newList) != 0
+//@   loop 1: invariant forall k int :: 0 <= k && k < i - 1 ==> newList[valueLen + k] == old(l.Items[key][k])
+//@   loop 2: modifies elems(newList)
+//@   loop 2: invariant -1 <= i && i <= valueLen - 1 && j == valueLen - 1 - i && l == old(l) && key == old(key) && values == old(values) &&
+//@        size == old(len(l.Items[key])) && valueLen == len(values) && newSize == size + valueLen && len(newList) == newSize && off(newList) == 0 && fresh(newList) && arr(newList) != 0
+//@   loop 2: invariant forall k int :: 0 <= k && k < size ==> newList[valueLen + k] == old(l.Items[key][k])
+//@   loop 2: invariant forall k int :: i < k && k < valueLen ==> newList[k] == values[valueLen - 1 - k]
+
+// LRemNum / LRem: only the arithmetic, the error cases and the frame are under contract; the exact
+// "first |count| occurrences" semantics needs an inductive counting argument and is covered by the
+// bounded stand-in BS3 (labelled bounded in the evidence), as is the index safety of LRem's copy loops.
+//@ func List.LRemNum
+//@   requires l != nil
+//@   ensures[C05] !has(l.Items, key) ==> result1 == ErrListNotFound
+//@   ensures[C05] has(l.Items, key) && count > len(l.Items[key]) ==> result1 == ErrCount
+//@   ensures[C05] result1 == nil ==> 0 <= result0 && result0 <= len(l.Items[key])
+//@   ensures[C05] has(l.Items, key) && count <= len(l.Items[key]) ==> result1 == nil
+//@   modifies nothing
+//@   safety[C05,C20] panics overflow
+//@   loops 1
+//@   loop 1: invariant -1 <= rangeindex && rangeindex < len(tempVal) && 0 <= removedNum && removedNum <= rangeindex + 1 && l == old(l) && key == old(key) &&
+//@        has(l.Items, key) && tempVal == l.Items[key]
+
+//@ func List.LRem
+//@   requires l != nil && l.Items != nil
+//@   ensures[C05] !old(has(l.Items, key)) ==> result1 == ErrListNotFound
+//@   ensures[C05] result1 == nil ==> result0 >= 0
+//@   ensures[C05] others(l, key)
+//@   ensures[C05] result1 != nil ==> has(l.Items, key) == old(has(l.Items, key)) && l.Items[key] == old(l.Items[key])
+//@   modifies entries(l.Items)
+//@   safety[C05,C20] overflow
+//@   loops 3
+//@   loop 1: modifies elems(newTempVal)
+//@   loop 1: invariant l == old(l) && key == old(key) && realRemovedNum >= 0 && fresh(newTempVal) && -1 <= rangeindex && rangeindex < len(tempVal) && realRemovedNum <= rangeindex + 1 && idx >= 0 && idx <= rangeindex + 1
+//@   loop 2: modifies elems(newTempVal)
+//@   loop 2: invariant l == old(l) && key == old(key) && realRemovedNum >= 0 && fresh(newTempVal) && -1 <= i && i < size && size == old(len(l.Items[key])) && realRemovedNum <= size - 1 - i && idx >= 0 && idx <= size - 1 - i
+//@   loop 3: modifies elems(newTempVal)
+//@   loop 3: invariant l == old(l) && key == old(key) && realRemovedNum >= 0 && fresh(newTempVal) && 0 <= i@2 && newTempValLen == len(newTempVal)
